@@ -179,6 +179,9 @@ func genConfig(r *kernel.Rand, o GenOpts, nUE int) scn.Config {
 	opc, op := boundary128(r), boundary128(r)
 	if r.Chance(2, 3) {
 		c.OPC, c.OP = hexCase(r, opc), hexCase(r, op)
+		if r.Sub("noop").Chance(1, 4) {
+			c.OP = "" // OPc provisioned, no OP at all
+		}
 	} else {
 		c.OPC, c.OP = "", hexCase(r, op)
 	}
@@ -209,7 +212,7 @@ func genConfig(r *kernel.Rand, o GenOpts, nUE int) scn.Config {
 		name[nameLen-1] = ' '
 	}
 	c.GnbName = string(name)
-	c.SST = r.Pick(1, 2, 3, r.Intn(256))
+	c.SST = r.Pick(0, 1, 1, 2, 3, 255, r.Intn(256)) // 0 is a legal SST: an explicit zero must not be taken for "unset"
 	c.SD = hexCase(r, r.Bytes(3))
 	ifs := ifaces()
 	c.DLIface = ifs[r.Intn(len(ifs))]
